@@ -104,7 +104,6 @@ ParseTheorems(l) ==
   /\ Len(l.frac) <= 18
   /\ n.d = StripLZ(l.int \o l.frac \o Zeros(18 - Len(l.frac)))
   /\ Parse(FormatAmount(n), 18) = n
-  /\ DigitsOfBytes(BytesOfDigits(n.d)) = n.d
 
 Theorems == phase = 1 =>
   CASE c.op = "small" -> SmallTheorems([neg |-> c.neg, d |-> c.d])
